@@ -216,6 +216,7 @@ def main():
     ap.add_argument("--seed", type=int, default=1)
     ap.add_argument("--out", required=True)
     ap.add_argument("--files")
+    ap.add_argument("--recheck", help="re-run only the mutants of this result file that survived suite and checks (same file / site index)")
     a = ap.parse_args()
     amap = anchors()
     files = sorted(amap) if not a.files else a.files.split(",")
@@ -229,6 +230,9 @@ def main():
         idx = list(range(n))
         r.shuffle(idx)
         todo += [(rel, i) for i in idx[: a.per_file]]
+    if a.recheck:
+        prev = [json.loads(l) for l in open(a.recheck)]
+        todo = [(x["file"], x["site"]) for x in prev if x["suite"] == "survived" and not x["caught_by"]]
     r.shuffle(todo)
     os.makedirs(os.path.dirname(os.path.abspath(a.out)), exist_ok=True)
     import threading
